@@ -4904,7 +4904,7 @@ pub fn initialize(env: &mut Env) {
                         .ok_or(NErr::value_error("bad lazy pow".to_string()))?;
                     Ok(Obj::Seq(Seq::Stream(Rc::new(CartesianPower(
                         v,
-                        if empty {
+                        if empty && u > 0 {
                             None
                         } else {
                             Some(Rc::new(vec![0; u]))
